@@ -225,6 +225,21 @@ def _movingnd(shard, ctx, col, np):
                             col.violation('C19/moving_%s/nd-axis' % k, 'lane %d of shape %s axis %d window %d differs from the 1-D result' % (li, shape, ax, w), {'shape': list(shape), 'axis': ax, 'window': w}); break
                     if k == 'sum' and not np.array_equal(got, exp_sum.astype('float64')):
                         col.violation('C19/moving_sum/nd-value', 'n-D moving_sum differs from the naive window sum (shape %s axis %d w %d)' % (shape, ax, w), {'shape': list(shape), 'axis': ax, 'window': w})
+    # memory layout is not part of the value: Fortran-ordered, transposed and strided views must give what their C-contiguous copy gives
+    base = ((np.arange(3 * 4 * 5).reshape(3, 4, 5) * 37 + 11) % 23).astype('float64')
+    for vn, a in {'fortran': np.asfortranarray(base), 'transposed': base.transpose(2, 0, 1), 'strided': base[:, ::2, ::2], 'reversed': base[::-1, :, ::-1]}.items():
+        c = np.ascontiguousarray(a)
+        for ax in range(a.ndim):
+            for w in (1, 2, a.shape[ax]):
+                if w > a.shape[ax]: continue
+                for k, f in fn.items():
+                    col.evaluations += 1; col.states += 1; col.transitions += 1; col.nontrivial += 1
+                    try:
+                        g1 = np.asarray(f(a, w, axis=ax), dtype='float64'); g2 = np.asarray(f(c, w, axis=ax), dtype='float64')
+                    except Exception as e:
+                        col.violation('C19/moving_%s/layout-raised' % k, '%s view axis %d window %d: %s: %s' % (vn, ax, w, type(e).__name__, e), {'view': vn, 'axis': ax, 'window': w}); continue
+                    if g1.shape != g2.shape or not np.allclose(g1, g2, rtol=1e-12, atol=1e-12, equal_nan=True):
+                        col.violation('C19/moving_%s/layout' % k, 'moving_%s on a %s view (axis %d, window %d) differs from the result on its C-contiguous copy' % (k, vn, ax, w), {'view': vn, 'axis': ax, 'window': w})
     col.sample({'function': 'moving_* n-D', 'shape': [2, 3, 4], 'axes': [0, 1, 2, -1]}, limit=1)
 
 
